@@ -18,7 +18,7 @@ def check_c02(case, ctx):
     cfg, teams, call = case["cfg"], case["teams"], case["call"]
     kind = cfg["kind"]
     n = len(teams)
-    model = model_for(cfg, call)
+    model = model_for(cfg, call, teams)
     clones = call.get("clone_ids")  # distinct objects sharing one id (deepcopy clones of a template): only the names tell them apart
     objs = mk_teams(model, teams, names=True, clone_ids=clones)
     ids = [[p.id for p in t] for t in objs]
